@@ -35,3 +35,11 @@ var (
 	AES256 = aesCipher(32)
 	SM4    = Cipher{Name: "SM4", KeyLen: 16, New: func(key []byte) Block { return sm4ref.New(key) }}
 )
+
+// further SHA-2 members (Table 2 of SP 800-90A: seedlen follows the OUTPUT length, 440 bits up to 256-bit digests)
+var (
+	SHA224     = Hash{Name: "SHA-224", Size: 28, Block: 64, Sum: func(m []byte) []byte { s := sha256.Sum224(m); return s[:] }}
+	SHA384     = Hash{Name: "SHA-384", Size: 48, Block: 128, Sum: func(m []byte) []byte { s := sha512.Sum384(m); return s[:] }}
+	SHA512_224 = Hash{Name: "SHA-512/224", Size: 28, Block: 128, Sum: func(m []byte) []byte { s := sha512.Sum512_224(m); return s[:] }}
+	SHA512_256 = Hash{Name: "SHA-512/256", Size: 32, Block: 128, Sum: func(m []byte) []byte { s := sha512.Sum512_256(m); return s[:] }}
+)
